@@ -277,8 +277,8 @@ func GenScenario(r *rand.Rand) *Scenario {
 	leaf := Opts{MaxDepth: 1, Stmts: 4, FailBias: 3, AllowOpaque: rich, AllowBig: r.Intn(2) == 0, AllowGas: r.Intn(2) == 0,
 		AllowDestruct: r.Intn(3) == 0, IgnoreCallFail: true}
 	mid := leaf
-	mid.Targets = []uint64{AddrC3, AddrC1}
-	top := Opts{MaxDepth: 2, Stmts: 6, FailBias: 1, Targets: []uint64{AddrC2, AddrC3}, AllowOpaque: rich, AllowBig: r.Intn(2) == 0,
+	mid.Targets = []uint64{AddrC3, AddrC1, AddrDeleg}
+	top := Opts{MaxDepth: 2, Stmts: 6, FailBias: 1, Targets: []uint64{AddrC2, AddrC3, AddrDeleg}, AllowOpaque: rich, AllowBig: r.Intn(2) == 0,
 		AllowGas: r.Intn(2) == 0, AllowCreate: r.Intn(3) == 0, AllowDestruct: r.Intn(4) == 0, IgnoreCallFail: true}
 	code := func(o Opts) []byte {
 		if r.Intn(12) == 0 {
@@ -305,6 +305,12 @@ func GenScenario(r *rand.Rand) *Scenario {
 	w.Add(&Account{Addr: AddrC2, Balance: bal(), Nonce: 1, Code: code(mid), Storage: mkStore()})
 	w.Add(&Account{Addr: AddrC3, Balance: bal(), Nonce: 1, Code: code(leaf), Storage: mkStore()})
 	w.Add(&Account{Addr: AddrEOA2, Balance: uint64(r.Intn(10)), Nonce: uint64(r.Intn(2))})
+	hasDeleg := r.Intn(2) == 0
+	if hasDeleg {
+		// an EIP-7702 delegated account (plain invalid code 0xEF.. before Prague)
+		tgt := []uint64{AddrC3, AddrC3, AddrC2, AddrEOA2, AddrEmpty, 4, AddrDeleg}[r.Intn(7)]
+		w.Add(&Account{Addr: AddrDeleg, Balance: uint64(r.Intn(5)), Nonce: 1, Code: Delegation(tgt)})
+	}
 	if r.Intn(3) == 0 {
 		w.Add(&Account{Addr: AddrCoinbase, Balance: uint64(r.Intn(10))})
 	}
@@ -338,6 +344,10 @@ func GenScenario(r *rand.Rand) *Scenario {
 	default:
 		sc.Kind = "call"
 		tx.To = AddrC1
+		if hasDeleg && r.Intn(8) == 0 {
+			sc.Kind = "call-deleg"
+			tx.To = AddrDeleg
+		}
 		nw := r.Intn(4)
 		for i := 0; i < nw; i++ {
 			word := make([]byte, 32)
